@@ -255,7 +255,8 @@ TIMED_MACROS = {"sendt": 6, "sendot": 6, "recvt": 6, "send": 2, "recv": 2, "try"
 TRY_MACROS = {"try": 5, "tryrt": 5, "tryr": 5, "tryrrt": 5, "drain": 3, "send": 2, "recv": 2, "sendt": 1, "asend1": 2, "arecv1": 2, "len": 1}
 DROP_MACROS = {"asenddrop": 6, "arecvdrop": 6, "asend1": 2, "arecv1": 2, "asend2": 1, "arecv2": 1, "stream3": 2, "send": 2, "recv": 2, "try": 2, "tryr": 2, "close": 1, "drops": 1, "dropr": 1}
 POLL_MACROS = {"asend2": 4, "asend3": 4, "arecv2": 4, "arecv3": 4, "stream3": 4, "asend1": 1, "arecv1": 1, "send": 2, "recv": 2, "try": 3, "tryr": 3, "close": 1}
-FREEZE = ("random", "uniform", "pct:3", "after:lock:1", "after:lock:2", "after:guard:1", "after:guard:2", "after:guard:3", "after:unlock:1", "after:pwrite:1", "after:st:1")
+FREEZE = ("random", "uniform", "pct:3", "after:lock:1", "after:lock:2", "after:guard:1", "after:guard:2", "after:guard:3", "after:unlock:1", "after:pwrite:1", "after:st:1",
+          "after:ld:1", "after:ld:2")    # frozen right after a load: a check-then-act on the lock word or a signal word gets its window
 
 
 def fams_c13(tier, seed):
@@ -494,7 +495,7 @@ PROPS = {
                   rel_ops("try", "tryr", "drain"),
                   "try_*/drain never answer blocked nor register; refused try_send leaves the channel unchanged up to the stale flag; success iff the value moved; try_recv value iff taken; realtime = one try_lock step (MutexM) used exactly by the *_realtime entry points"),
     "C15": simple("C15", "proof", fams_c15,
-                  conc_prof("future-drop", DROP_MACROS, ["stuck"], strategies=STRATS),
+                  conc_prof("future-drop", DROP_MACROS, ["stuck", "wakerlife"], strategies=STRATS),
                   rel_tokens(r"\bv\d+| d\d+| w\d+|leak|dbl|pending|panic"),
                   "drop of a send/receive future in every state: value destroyed once / delivered once / nothing; claimed-not-finalised: Drop waits; afterwards dead, out of the wait list (erase keeps the others' order), never touched again"),
     "C16": simple("C16", "proof", fams_c16,
@@ -641,15 +642,17 @@ for _pid, _spec in PROPS.items():
 # further theorem files (each ends with its own `#print axioms` audit)
 EXTRA_FILES = {
     "C06": ["Kanal/Props/C06Fair.lean", "Kanal/Props/C06Chan.lean", "Kanal/Props/C06Async.lean",    # eventual completion under weak fairness
-            "Kanal/TieProto.lean", "Kanal/ProtoSim.lean", "Kanal/TiePaths.lean"],
+            "Kanal/TieProto.lean", "Kanal/ProtoSim.lean", "Kanal/TiePaths.lean",
+            "Kanal/Own.lean", "Kanal/TieDiscipline.lean"],                   # every waiter a call takes out of the wait list gets its one final store before the call returns
     "C18": ["Kanal/Bridge.lean", "Kanal/Bridge2.lean"],                                                                  # Fine read sequentially = Spec.step
     "C03": ["Kanal/Sections.lean", "Kanal/SpecSections.lean"],
     # translated signal.rs / mutex.rs / spin_cond conform to SigM / MutexM (TieProto), and conformance is adequate (ProtoSim)
-    "C07": ["Kanal/TieProto.lean", "Kanal/ProtoSim.lean", "Kanal/TiePaths.lean", "Kanal/Props/C07Pin.lean"],   # + the futures are !Unpin
+    "C07": ["Kanal/TieProto.lean", "Kanal/ProtoSim.lean", "Kanal/TiePaths.lean", "Kanal/Props/C07Pin.lean",   # + the futures are !Unpin
+            "Kanal/Own.lean", "Kanal/NoDangle.lean", "Kanal/TieDiscipline.lean"],     # one peer per popped signal, exactly once; no frame dies while its signal can be touched
     "C17": ["Kanal/TieProto.lean", "Kanal/ProtoSimMutex.lean", "Kanal/TiePaths.lean"],
-    "C13": ["Kanal/TieProto.lean"],            # wait_timeout / is_terminated
+    "C13": ["Kanal/TieProto.lean", "Kanal/NoDangle.lean", "Kanal/TieDiscipline.lean"],            # wait_timeout / is_terminated; a timed call returns only unexposed
     "C16": ["Kanal/TieProto.lean"],            # poll, will_wake, register_waker, the constructors (a signal starts LOCKED)
-    "C15": ["Kanal/TieProto.lean", "Kanal/Props/C07Pin.lean"],   # async_blocking_wait in Drop; Drop is what un-registers a future: it cannot be moved before
+    "C15": ["Kanal/TieProto.lean", "Kanal/Props/C07Pin.lean", "Kanal/NoDangle.lean", "Kanal/TieDiscipline.lean"],   # async_blocking_wait in Drop; Drop is what un-registers a future: it cannot be moved before
     "C14": ["Kanal/Props/C14Fine.lean"],
     "C04": ["Kanal/TiePtr.lean"],              # pointer.rs translated: its operation lists compute PtrM's functions for every size, memory and word
     "C05": ["Kanal/TiePtr.lean"],              # … and a value passed by value is consumed exactly once (moved or bit-copied + forgotten)
